@@ -58,6 +58,23 @@ type faultBackend struct {
 	FailedSrc  int
 	WrittenDst int
 	dstPrefix  string
+	// every source-measurement file that storage accepted: when (sim ns) the
+	// write returned and which rows it holds. From then on the file is there
+	// for any aggregation to read (nothing in this harness deletes or compacts
+	// source files), which is what the oracle needs to know to say that a
+	// window had input rows when an execution selected it.
+	srcPrefix string
+	SrcFiles  []srcFile
+}
+
+type srcRow struct {
+	t    int64 // microseconds
+	host string
+}
+
+type srcFile struct {
+	atNs int64
+	rows []srcRow
 }
 
 func (f *faultBackend) Write(ctx context.Context, path string, data []byte) error {
@@ -80,6 +97,21 @@ func (f *faultBackend) Write(ctx context.Context, path string, data []byte) erro
 	if err == nil {
 		if isDst {
 			f.WrittenDst++
+		} else if strings.HasPrefix(path, f.srcPrefix) {
+			rows, perr := parseParquet(data)
+			if perr != nil {
+				panic(fmt.Sprintf("HARNESS source file %s not readable: %v", path, perr))
+			}
+			sf := srcFile{atNs: simrt.SimNow()}
+			for _, r := range rows {
+				t, ok1 := r["time"].(int64)
+				h, ok2 := r["host"].(string)
+				if !ok1 || !ok2 {
+					panic(fmt.Sprintf("HARNESS source row without time/host in %s: %v", path, r))
+				}
+				sf.rows = append(sf.rows, srcRow{t: t, host: h})
+			}
+			f.SrcFiles = append(f.SrcFiles, sf)
 		}
 		simrt.Event("STORAGE-WRITE %s", path)
 	}
@@ -89,8 +121,10 @@ func (f *faultBackend) Write(ctx context.Context, path string, data []byte) erro
 // execTrace is when (simulated monotonic ns) an execution selected its window
 // and when it reported its outcome, taken from the handler's own log lines
 // ("Executing ... continuous query" carries the execution id; the outcome line
-// is written by the same task). Only used to name the circumstance of a
-// violation, never to decide whether there is one.
+// is written by the same task). Used to name the circumstance of a violation;
+// the one thing the oracle decides with it is which source files were already
+// in storage when an execution selected its window (selectNs): the execution
+// history itself carries no simulated time.
 type execTrace struct {
 	selectNs int64
 	doneNs   int64
@@ -101,6 +135,10 @@ type execTrace struct {
 	// the process died after this execution announced its window and before
 	// it reported an outcome (set by the driver when it handles the crash)
 	cutByCrash bool
+	// the scheduler's job was stopped (CQ update, scheduler reload, shutdown)
+	// after this scheduled execution announced its window and before it
+	// reported an outcome (set by the driver, names a circumstance only)
+	interrupted bool
 }
 
 type logCapture struct {
@@ -117,6 +155,11 @@ type logCapture struct {
 	// execution passed that log line, so this is never less than the number
 	// of history rows when execLatencyMs > 0; checked by the harness)
 	latencyApplied int
+	// a call that stops the CQ's job is in progress / scheduled executions that
+	// were running when one began (see jobStopping; names a circumstance and
+	// feeds a probe, nothing else)
+	stopping    int
+	interrupted int
 }
 
 func (c *logCapture) aggregationLatency() {
@@ -140,6 +183,25 @@ func (c *logCapture) processDied() {
 	}
 	c.byTask = map[int]string{}
 }
+
+// jobStopping is called by the driver right before it does something that
+// stops the scheduler's job of the CQ (update, reload, shutdown): scheduled
+// executions that announced their window and have not reported an outcome are
+// running now and will have their context cancelled.
+func (c *logCapture) jobStopping() {
+	c.stopping++
+	for id, tr := range c.tr {
+		if strings.HasPrefix(id, "cq-sched-") && !tr.done && !tr.cutByCrash && !tr.interrupted {
+			tr.interrupted = true
+			c.interrupted++
+		}
+	}
+}
+
+// jobStopped: the call that stops the job has returned (it waits for the
+// job's running execution). A scheduled execution that reports its outcome in
+// between was running when the job was stopped as well (see Write).
+func (c *logCapture) jobStopped() { c.stopping-- }
 
 func (c *logCapture) Write(b []byte) (int, error) {
 	if os.Getenv("VERIF_LOG") != "" {
@@ -181,6 +243,10 @@ func (c *logCapture) Write(b []byte) (int, error) {
 	case "Scheduled continuous query completed", "Continuous query completed",
 		"Scheduled continuous query execution failed", "Continuous query execution failed":
 		if id, ok := c.byTask[t.ID()]; ok {
+			if c.stopping > 0 && strings.HasPrefix(id, "cq-sched-") && !c.tr[id].interrupted {
+				c.tr[id].interrupted = true
+				c.interrupted++
+			}
 			c.tr[id].doneNs, c.tr[id].done = simrt.SimNow(), true
 			delete(c.byTask, t.ID())
 		}
@@ -236,8 +302,9 @@ func (n *node) boot() {
 		panic(fmt.Sprintf("HARNESS local backend: %v", err))
 	}
 	n.local = local
-	fb := &faultBackend{Backend: local, latencyUs: n.knobs.StorageLatencyUs, dstPrefix: cqDB + "/" + cqDst + "/"}
+	fb := &faultBackend{Backend: local, latencyUs: n.knobs.StorageLatencyUs, dstPrefix: cqDB + "/" + cqDst + "/", srcPrefix: cqDB + "/" + cqSrc + "/"}
 	if n.fb != nil {
+		fb.SrcFiles = n.fb.SrcFiles
 		fb.failFrom, fb.failUntil = n.fb.failFrom, n.fb.failUntil
 		fb.FailedDst, fb.FailedSrc, fb.WrittenDst = n.fb.FailedDst, n.fb.FailedSrc, n.fb.WrittenDst
 	}
@@ -310,6 +377,10 @@ func readParquetFile(path string) ([]map[string]any, error) {
 	if err != nil {
 		return nil, err
 	}
+	return parseParquet(b)
+}
+
+func parseParquet(b []byte) ([]map[string]any, error) {
 	rdr, err := file.NewParquetReader(bytes.NewReader(b))
 	if err != nil {
 		return nil, fmt.Errorf("open parquet: %w", err)
